@@ -123,13 +123,21 @@ def check_tree(data: dict, lab: Labels) -> None:
         calls_f: list = []
         calls_p: list = []
 
+        reenter = (pm + 2 * fm) % 5 == 1  # the predicates walk the tree themselves while the outer walk is running
+
         def prune_l(info, _pm=pm):
+            if reenter:
+                list(info.node.dfs(bottom_up=True))
+                list(root.bfs(prune=lambda i: i.node is info.node))
             k = live_key(info)
             calls_p.append(k)
             require(k in cidx, "prune-offered-unknown-position", k)
             return bool(_pm >> cidx[k] & 1)
 
         def flt_l(info, _fm=fm):
+            if reenter:
+                list(root.dfs(filter=lambda i: i.node is info.node))
+                list(info.parent.gather(type(info.node)))
             k = live_key(info)
             calls_f.append(k)
             require(k in cidx, "filter-offered-unknown-position", k)
